@@ -348,6 +348,21 @@ def pending_state():
             for a in LAZY_ATTRS}
 
 
+def unregistered_state():
+    """lazy attribute names the source under test does not know at all in a fresh process: no class of the
+    atom hierarchy has the name (neither a pending property nor a loaded default) and no element of the public
+    table carries it.  Such a name was dropped from the registrations; that is for the histories to judge
+    (the canonical order may still serve it), the parent is pristine all the same."""
+    import periodictable
+    from periodictable import core
+    out = {}
+    for a in LAZY_ATTRS:
+        known = any(a in c.__dict__ for c in (core.Element, core.Isotope, core.Ion)) or \
+            any(a in el.__dict__ for el in periodictable.elements)
+        out[a] = not known
+    return out
+
+
 def worker_main():
     """stdin: one JSON history per line; stdout: one JSON outcome list per line.
     The worker imports periodictable once and never touches anything lazy itself."""
@@ -356,7 +371,8 @@ def worker_main():
     import pyparsing  # noqa
     import periodictable  # noqa
     st = pending_state()
-    if not all(st[a] for a in LAZY_ATTRS if a != "xray") or not st["xray"]:
+    un = unregistered_state()
+    if not all(st[a] or un[a] for a in LAZY_ATTRS) or not any(st.values()):
         print(json.dumps({"infra": "parent is not pristine: %r" % st}), flush=True)
         return
     print(json.dumps({"ready": True}), flush=True)
